@@ -479,7 +479,27 @@ func runC19(c *Ctx) {
 		// and block sync never restores what it reverted)
 		bf := factsOf(bsync)
 		nd := 0
-		for _, sc := range CallsIn(bsync, "(*consensus/sync.blockSyncer).deleteTillCommonBlock") {
+		revertSites := CallsIn(bsync, "(*consensus/sync.blockSyncer).deleteTillCommonBlock")
+		for _, call := range AllCalls(bsync) {
+			// the revert loop written in a new helper that is handed the syncer's reverter, or the
+			// reverter called on the spot
+			direct := false
+			if t := T(call.Common().Value); t.Op == "field" && t.Sym == "reverter" {
+				direct = true
+			}
+			handed := false
+			if newHelperCallee(call) != nil {
+				for _, a := range call.Common().Args {
+					if t := T(a); t.Op == "field" && t.Sym == "reverter" {
+						handed = true
+					}
+				}
+			}
+			if direct || handed {
+				revertSites = append(revertSites, Site{bsync, call})
+			}
+		}
+		for _, sc := range revertSites {
 			nd++
 			ok := false
 			for _, f := range bf.FactsAt(sc.Call.Block()) {
